@@ -58,7 +58,9 @@ def gen_term(r):
     cur = list(r["t0"])
     for e in r["evs"]:
         op = e["op"]
-        if op == "forge":
+        if op == "forge" and e.get("abort"):
+            evs.append("(GForgeAbort %d %s %s)" % (e.get("who", 0), cbool(e["forged"]), ogi(e.get("stored"))))
+        elif op == "forge":
             h = e["hdr"]
             forged = e["forged"] and not e.get("panic")
             signer = e.get("signer", -1)
@@ -75,6 +77,8 @@ def gen_term(r):
             evs.append("(GSync %s)" % cbool(e.get("on", False)))
         elif op == "restart":
             evs.append("GRestart")
+        elif op == "powerloss":
+            evs.append("(GPowerLoss %s)" % clist(list(enumerate(e.get("all") or [])), lambda kv: "(%d, %s)" % (kv[0], ogi(kv[1]))))
     return "(%s, [%s])" % (tip(r["t0"]), "; ".join(evs))
 
 
@@ -125,7 +129,7 @@ def evaluate(ck, recs):
             ck.count()
             forged = [e for e in r["evs"] if e["op"] == "forge" and e["forged"]]
             if len(forged) >= 2:
-                ck.nontrivial(("gen", tuple(r["t0"]), tuple((e["op"], tuple(e.get("t", [])), e.get("lost", False), e.get("drop", False), e.get("who", 0)) for e in r["evs"])))
+                ck.nontrivial(("gen", tuple(r["t0"]), tuple((e["op"], tuple(e.get("t", [])), e.get("lost", False), e.get("drop", False), e.get("who", 0), e.get("abort", False)) for e in r["evs"])))
             if code != 0:
                 add_failure(ck, "gen", code,
                             "generator signed contradicting headers / maxHeightGenerated below an earlier own height / info not "
@@ -191,7 +195,7 @@ def run(ck):
             return
         recs += r0
     if ck.tier == "quick":
-        args = ["-sel", "900", "-gen", "150", "-acc", "8"]
+        args = ["-sel", "900", "-gen", "150", "-acc", "9"]
     else:
         args = ["-sel", "20000", "-gen", "3000", "-acc", "60"]
     r1 = ck.run_harness(binp, args, timeout=1700)
